@@ -68,6 +68,18 @@ func buildSkew(d skewDesc) (*gen.Graph, string) {
 	return root.G, j.ID
 }
 
+// skewRank orders the pending requests the way the tasks were declared (one
+// incoming flow of the gateway after the other).
+func skewRank(g *gen.Graph) map[string]int {
+	rank := map[string]int{}
+	g.AllNodes(func(n *gen.Node, _ *gen.Graph) {
+		if n.Kind == gen.KTask {
+			rank[n.ID] = len(rank)
+		}
+	})
+	return rank
+}
+
 func TestC03Skew(t *testing.T) {
 	var rd skewDesc
 	if ok, err := rec.ReplayInput(&rd); ok {
@@ -78,7 +90,7 @@ func TestC03Skew(t *testing.T) {
 			return
 		}
 		g, _ := buildSkew(rd)
-		c := &drive.Case{Graph: g, Lang: "expr", Vars: map[string]any{}, Answers: map[string][]model.Answer{}, Schedule: rd.Schedule, Perturb: rd.Perturb}
+		c := &drive.Case{Graph: g, Lang: "expr", Vars: map[string]any{}, Answers: map[string][]model.Answer{}, Schedule: rd.Schedule, Perturb: rd.Perturb, Rank: skewRank(g)}
 		out := drive.RunLockstep(c, nil, nil)
 		if out.Symptom != "" {
 			fmt.Printf("REPRODUCED %s: %s\n", out.Symptom, out.Detail)
@@ -90,18 +102,33 @@ func TestC03Skew(t *testing.T) {
 		d := skewDesc{M: rapid.IntRange(1, 3).Draw(rt, "m"), Perturb: uint64(rapid.IntRange(0, 200).Draw(rt, "perturb")), InSub: rapid.SampledFrom([]int{0, 0, 1, 2}).Draw(rt, "inSub")}
 		n := rapid.IntRange(2, 3).Draw(rt, "n")
 		equal := rapid.IntRange(0, 3).Draw(rt, "equal") > 0
-		k0 := rapid.IntRange(1, 3).Draw(rt, "k")
+		// a quarter of the cases queue many tokens (up to 9) per incoming flow
+		hi := 3
+		if rapid.IntRange(0, 3).Draw(rt, "deep") == 0 {
+			hi = 9
+		}
+		k0 := rapid.IntRange(1, hi).Draw(rt, "k")
 		for i := 0; i < n; i++ {
 			if equal {
 				d.K = append(d.K, k0)
 			} else {
-				d.K = append(d.K, rapid.IntRange(1, 3).Draw(rt, "ki"))
+				d.K = append(d.K, rapid.IntRange(1, hi).Draw(rt, "ki"))
 			}
 		}
+		// answer order: any, or one incoming flow after the other (all tokens
+		// of a flow queue up while the other flows are still empty), from the
+		// first or from the last declared flow
+		bias := rapid.SampledFrom([]int{0, 0, 1, 2}).Draw(rt, "bias")
 		g, _ := buildSkew(d)
-		c := &drive.Case{Graph: g, Lang: "expr", Vars: map[string]any{}, Answers: map[string][]model.Answer{}, Perturb: d.Perturb}
+		c := &drive.Case{Graph: g, Lang: "expr", Vars: map[string]any{}, Answers: map[string][]model.Answer{}, Perturb: d.Perturb, Rank: skewRank(g)}
 		pick := func(n int) int {
-			v := rapid.IntRange(0, n-1).Draw(rt, "pick")
+			v := 0
+			switch bias {
+			case 0:
+				v = rapid.IntRange(0, n-1).Draw(rt, "pick")
+			case 2:
+				v = n - 1
+			}
 			c.Schedule = append(c.Schedule, v)
 			return v
 		}
@@ -130,6 +157,12 @@ func TestC03Skew(t *testing.T) {
 		}
 		if d.InSub > 0 {
 			cls = append(cls, "insideSubProcess")
+		}
+		if mx >= 5 {
+			cls = append(cls, "queue>=5")
+		}
+		if bias > 0 {
+			cls = append(cls, "flowAfterFlow")
 		}
 		rec.Case("TestC03Skew", hash, mx >= 2, cls, map[string]any{"case": d, "steps": out.Steps})
 		if out.Symptom != "" {
